@@ -61,7 +61,6 @@ class EFLRItem:
 
         self._check_parent(parent)
         self._parent = parent  #: EFLRSet instance this item belongs to
-        self._parent.register_item(self)
 
         #: origin reference value, common for records sharing origin
         self._origin_reference: Union[int, None] = self._validate_origin_reference(origin_reference, allow_none=True)
@@ -73,6 +72,9 @@ class EFLRItem:
             attribute.parent_eflr = self
 
         self.set_attributes(**{k: v for k, v in kwargs.items() if v is not None})
+
+        # only a completely set-up item becomes part of the set: a rejected value must not leave a half-made item behind
+        self._parent.register_item(self)
 
     @property
     def parent(self) -> "EFLRSet":
@@ -116,8 +118,9 @@ class EFLRItem:
     def _compute_copy_number(self) -> int:
         """Compute copy number of this ELFRItem, i.e. how many other objects of the same type and name there are."""
 
+        # (called before this item is registered with the parent, so only the previously added ones are counted)
         items_with_the_same_name = filter(lambda o: o.name == self.name, self.parent.get_all_eflr_items())
-        return len(list(items_with_the_same_name)) - 1
+        return len(list(items_with_the_same_name))
 
     @classmethod
     def _check_parent(cls, parent: "EFLRSet") -> None:
